@@ -1,0 +1,86 @@
+//go:build verif
+
+package protocol
+
+import (
+	"github.com/enfein/mieru/v3/pkg/appctl/appctlpb"
+)
+
+// Exports for the external verification harness (property C17). Add-only; compiled only with -tags verif.
+
+const (
+	VerifLowEntropyChunkLen           = lowEntropyChunkLen
+	VerifMaxPDU                       = maxPDU
+	VerifDataClientToServerLowEntropy = int(dataClientToServerLowEntropy)
+	VerifDataServerToClientLowEntropy = int(dataServerToClientLowEntropy)
+)
+
+// VerifLEParams exposes buildLowEntropyParams.
+func VerifLEParams(mode int32) (sourceBytesPerChunk int, halfMaskOnes int, err error) {
+	p, err := buildLowEntropyParams(appctlpb.LowEntropyMode(mode))
+	return p.sourceBytesPerChunk, p.halfMaskOnes, err
+}
+
+// VerifLEEncodedLen exposes lowEntropyEncodedPayloadLen.
+func VerifLEEncodedLen(extractedPayloadLen int, mode int32) (uint16, error) {
+	return lowEntropyEncodedPayloadLen(extractedPayloadLen, appctlpb.LowEntropyMode(mode))
+}
+
+// VerifLEValidRotation exposes isValidLowEntropyRotation.
+func VerifLEValidRotation(rotation int32) bool {
+	return isValidLowEntropyRotation(appctlpb.LowEntropyMaskRotation(rotation))
+}
+
+// VerifLEChunkMask exposes lowEntropyChunkMask.
+func VerifLEChunkMask(initialMask uint64, rotation int32, chunkIndex int) (uint64, error) {
+	return lowEntropyChunkMask(initialMask, appctlpb.LowEntropyMaskRotation(rotation), chunkIndex)
+}
+
+// VerifLEPaddingBit reports the host-stable padding bit used by the production encoder.
+func VerifLEPaddingBit() uint8 { return lowEntropyPaddingBit }
+
+// VerifLENewHalfMask exposes newLowEntropyHalfMask.
+func VerifLENewHalfMask(mode int32) (uint32, error) {
+	return newLowEntropyHalfMask(appctlpb.LowEntropyMode(mode))
+}
+
+// VerifLEEncode exposes encodeLowEntropyPayloadWithPaddingBit.
+func VerifLEEncode(src []byte, mode int32, halfMask uint32, rotation int32, paddingBit uint8) ([]byte, error) {
+	return encodeLowEntropyPayloadWithPaddingBit(src, appctlpb.LowEntropyMode(mode), halfMask, appctlpb.LowEntropyMaskRotation(rotation), paddingBit)
+}
+
+// VerifLEEncodeProd exposes encodeLowEntropyPayload (production wrapper, host padding bit).
+func VerifLEEncodeProd(src []byte, mode int32, halfMask uint32, rotation int32) ([]byte, error) {
+	return encodeLowEntropyPayload(src, appctlpb.LowEntropyMode(mode), halfMask, appctlpb.LowEntropyMaskRotation(rotation))
+}
+
+// VerifLEDecode exposes decodeLowEntropyPayload.
+func VerifLEDecode(encoded []byte, extractedPayloadLen int, mode int32, halfMask uint32, rotation int32) ([]byte, error) {
+	return decodeLowEntropyPayload(encoded, extractedPayloadLen, appctlpb.LowEntropyMode(mode), halfMask, appctlpb.LowEntropyMaskRotation(rotation))
+}
+
+func verifLEDas(proto uint8, mode uint8, halfMask uint32, extractedPayloadLen uint16, payloadLen uint16, rotation uint8) *dataAckStruct {
+	return &dataAckStruct{
+		baseStruct:             baseStruct{protocol: proto},
+		lowEntropyMode:         mode,
+		payloadLen:             payloadLen,
+		lowEntropyMask:         halfMask,
+		extractedPayloadLen:    extractedPayloadLen,
+		lowEntropyMaskRotation: rotation,
+	}
+}
+
+// VerifLEValidateMeta exposes validateLowEntropyDataAckMetadata on a dataAckStruct with the given fields.
+func VerifLEValidateMeta(proto uint8, mode uint8, halfMask uint32, extractedPayloadLen uint16, payloadLen uint16, rotation uint8) error {
+	return validateLowEntropyDataAckMetadata(verifLEDas(proto, mode, halfMask, extractedPayloadLen, payloadLen, rotation))
+}
+
+// VerifLEWireEncode exposes encodeLowEntropyEncryptedPayload (body ++ tag -> encoded body ++ tag).
+func VerifLEWireEncode(encryptedPayload []byte, proto uint8, mode uint8, halfMask uint32, extractedPayloadLen uint16, payloadLen uint16, rotation uint8) ([]byte, error) {
+	return encodeLowEntropyEncryptedPayload(encryptedPayload, verifLEDas(proto, mode, halfMask, extractedPayloadLen, payloadLen, rotation))
+}
+
+// VerifLEWireDecode exposes decodeLowEntropyEncryptedPayload.
+func VerifLEWireDecode(wirePayload []byte, proto uint8, mode uint8, halfMask uint32, extractedPayloadLen uint16, payloadLen uint16, rotation uint8) ([]byte, error) {
+	return decodeLowEntropyEncryptedPayload(wirePayload, verifLEDas(proto, mode, halfMask, extractedPayloadLen, payloadLen, rotation))
+}
